@@ -44,7 +44,9 @@ def rule_flat_map_dispatch(repo: Repo, rep: Report) -> None:
                f"{q} does not hand a callable argument on as `{role}` and a non-callable one as the constant inner sequence: the mapper is "
                f"called with the wrong arity, or the mapper function itself is merged as if it were the inner sequence")
     fi = repo.fn(FM, "_flat_map_internal")
-    proj = fi.child("projection")
+    # role, not name: the projection is the closure handed to map_indexed(...)
+    pj = [a.id for x in sites(fi) if isinstance(x.node, ast.Call) and call_name(x.node) in ("map_indexed", "mapi") for a in x.node.args if isinstance(a, ast.Name)]
+    proj = fi.child(pj[0]) if len(pj) == 1 else None
     ok = False
     if proj is not None:
         src_ = " ".join(u(n_) for n_ in proj.direct_nodes() if isinstance(n_, ast.IfExp))
